@@ -486,8 +486,8 @@ Proof.
 Qed.
 
 (* ---- solve_basic as a whole (Higham Theorem 9.4 for elimination on the augmented system), standard model ----
-   (A + dA) x^ = b EXACTLY in b; L^ = the multipliers the elimination used (not stored by the code, hence existential),
-   U^ = the computed echelon form; g = gam (n+1).  The first alternative of the conclusion is the run in which a pivot
+   (A + dA) x^ = b EXACTLY in b; L^ = the multipliers the elimination used (not stored by the code, hence existential;
+   |l_ik| <= 1 + u by partial pivoting), U^ = the computed echelon form; g = gam (n+1).  The first alternative of the conclusion is the run in which a pivot
    search met an all-zero column ([BadRun]: a prefix of the run and the zero column are exhibited). *)
 From OV Require Import Proofs.RoundGaussTrace Proofs.RoundSolveBasic Proofs.RoundExamples3.
 
@@ -507,6 +507,7 @@ Theorem solve_basic_backward_error : forall (u : R), (0 <= u < 1)%R ->
      (forall r, (r < rows m)%nat -> (tau r < rows m)%nat) /\
      (forall r r', (r < rows m)%nat -> (r' < rows m)%nat -> tau r = tau r' -> r = r') /\
      (forall i, L i i = 1%R) /\ (forall i k, (i < k)%nat -> L i k = 0%R) /\
+     (forall i k, (k < i)%nat -> (i < rows m)%nat -> (Rabs (L i k) <= 1 + u)%R) /\
      exists dA : nat -> nat -> R,
        (forall i c, (i < rows m)%nat -> (c < rows m)%nat ->
           (Rabs (dA i c) <= (3 * gam u (S (rows m)) + gam u (S (rows m)) * gam u (S (rows m)))
@@ -531,6 +532,7 @@ Check solve_basic_backward_error : forall (u : R), (0 <= u < 1)%R ->
      (forall r, (r < rows m)%nat -> (tau r < rows m)%nat) /\
      (forall r r', (r < rows m)%nat -> (r' < rows m)%nat -> tau r = tau r' -> r = r') /\
      (forall i, L i i = 1%R) /\ (forall i k, (i < k)%nat -> L i k = 0%R) /\
+     (forall i k, (k < i)%nat -> (i < rows m)%nat -> (Rabs (L i k) <= 1 + u)%R) /\
      exists dA : nat -> nat -> R,
        (forall i c, (i < rows m)%nat -> (c < rows m)%nat ->
           (Rabs (dA i c) <= (3 * gam u (S (rows m)) + gam u (S (rows m)) * gam u (S (rows m)))
